@@ -62,6 +62,9 @@ void harness(void)
 #ifdef VF_MIN_LEN
     VF_ASSUME(len >= VF_MIN_LEN);
 #endif
+#ifdef VF_EXACT_N
+    len = VF_N;                /* one query per length */
+#endif
 #ifdef VF_TAIL_ALIGN     /* terminator = last byte of the object: a read past it is out of bounds */
     email_u = email_buf + (VF_N - len);
 #endif
